@@ -77,7 +77,7 @@ class NetworkStatistics(Process):
             ktotal += i * hist[i]
         res[self.KMEAN] = ktotal / g.order()
         res[self.KDIST] = hist
-        res[self.KMAX] = len(hist)
+        res[self.KMAX] = len(hist) - 1
 
         # component statistics
         ccs = sorted(list(map(len, connected_components(g))), reverse=True)
